@@ -188,8 +188,12 @@ def avgOf (xs : List Value) : Option Value :=
 mean": `(Σx² − (Σx)²/n) / n`, evaluated in REAL arithmetic in exactly this order, from the REAL forms `s` of Σx and `q` of
 Σx². The property sentence and the README (`stddev(x)`, `variance(x)`) say neither "population" nor "sample" and fix no
 evaluation order: population and this order are THE CODE'S CHOICE, recorded here as the specification's own definition
-(the model's `stddevCalc` is proved equal to it: `Lemmas/AggSums.lean` `stddevCalc_eq_spread`; the harness reference
-computes the population variance over exact rationals). Cancellation can make it slightly negative, STDDEV is then NaN. -/
+(the model's `stddevCalc` is equal to it by definition: `Lemmas/AggSums.lean` `stddevCalc_eq_spread`; the harness reference
+computes the population variance over exact rationals). The INDEPENDENT definition is `Spec/Variance.lean` (`popVariance`:
+the textbook `(1/n)·Σ(x − μ)²` over exact rationals); `Props/C04Variance.lean` relates the two: equal over ℚ, equal in REAL
+arithmetic where no step rounds (`variance_exact_where_no_step_rounds`), each step correctly rounded otherwise — and NOT a
+variance in general: the subtraction cancels, the result can be NEGATIVE (STDDEV then NaN) or positive for equal values
+(`d72_variance_negative_real`, `d72_variance_negative_int`, `d72_variance_of_equal_ints_positive`: candidate finding D72). -/
 def populationVariance (n : Int) (s q : Nat) : Nat :=
   F64.div (F64.sub q (F64.div (F64.mul s s) (F64.ofInt n))) (F64.ofInt n)
 
